@@ -380,7 +380,8 @@ Definition run_store (hlines : list str) (reg : list (tscheme * bool))
 
 (* a header (from_lines, Silent) edited through the MutableMapping API; after
    every operation validate() is run and the header observed *)
-Inductive hop := HSet (k : str) (r : hrec) | HDel (k : str) | HClear | HPopItem.
+Inductive hop := HSet (k : str) (r : hrec) | HDel (k : str) | HClear | HPopItem
+  | HValue (k : str) (v : str).      (* header[k].value = v: the stored record object is edited in place *)
 Definition dec_hop (s : sexp) : option hop :=
   match s with
   | L [A 0; k; L [A 0; v]] =>
@@ -399,6 +400,7 @@ Definition dec_hop (s : sexp) : option hop :=
   | L [A 1; k] => option_map HDel (as_str k)
   | L [A 2] => Some HClear
   | L [A 3] => Some HPopItem
+  | L [A 4; k; v] => match as_str k, as_str v with Some k', Some v' => Some (HValue k' v') | _, _ => None end
   | _ => None
   end.
 
@@ -410,6 +412,11 @@ Definition apply_hop (recs : list (str * hrec)) (o : hop) : list (str * hrec) * 
   | HDel k => match assoc k recs with Some _ => (ddel k recs, Ok tt) | None => (recs, Raise KeyError) end
   | HClear => ([], Ok tt)
   | HPopItem => match recs with [] => (recs, Raise KeyError) | (k, _) :: rest => (ddel k recs, Ok tt) end
+  | HValue k v =>
+      match assoc k recs with
+      | Some r => (dset k {| hkey := hkey r; hval := HText v |} recs, Ok tt)
+      | None => (recs, Raise KeyError)
+      end
   end.
 
 Fixpoint run_hops (registry : list tscheme) (h : header) (ops : list hop) : list sexp :=
